@@ -1,7 +1,6 @@
 package ibe
 
 import (
-	"bytes"
 	"crypto/rand"
 	"encoding/binary"
 	"errors"
@@ -304,11 +303,12 @@ func gtToHash(s pairing.Suite, gt kyber.Point, length int) ([]byte, error) {
 		return nil, errors.New("err marshalling gt to the hash function")
 	}
 
-	hashReader := bytes.NewReader(hash.Sum(nil))
-	var b = make([]byte, length)
-	if _, err := hashReader.Read(b); err != nil {
-		return nil, errors.New("couldn't read from hash output")
+	sum := hash.Sum(nil)
+	if length > len(sum) {
+		return nil, errors.New("requested pad is longer than the hash output")
 	}
+	var b = make([]byte, length)
+	copy(b, sum)
 	return b, nil
 }
 
